@@ -1,0 +1,51 @@
+// Copyright 2020-2025 Buf Technologies, Inc.
+//
+// Licensed under the Apache License, Version 2.0 (the "License");
+// you may not use this file except in compliance with the License.
+// You may obtain a copy of the License at
+//
+//      http://www.apache.org/licenses/LICENSE-2.0
+//
+// Unless required by applicable law or agreed to in writing, software
+// distributed under the License is distributed on an "AS IS" BASIS,
+// WITHOUT WARRANTIES OR CONDITIONS OF ANY KIND, either express or implied.
+// See the License for the specific language governing permissions and
+// limitations under the License.
+
+//go:build verif
+
+package protodescriptor
+
+// Contracts for the gocv verifier (contract author ca-B2). Comment-only.
+//
+// C11, the FROM-proto direction of an image file: an image read from a file holds *imagev1.ImageFile messages; the
+// ImageFile of the in-memory image holds a *descriptorpb.FileDescriptorProto made from it HERE. The descriptor keeps
+// every field: the nine repeated / message fields are the getter values, the four optional scalars (name, package,
+// syntax, edition) are set to the getter value unless that is the zero value (documented deviation: a set-but-empty
+// name / package / syntax comes back unset), and the unknown-field bytes (custom options of the file message itself,
+// the stripped buf extension aside) are carried over. A *descriptorpb.FileDescriptorProto is returned as is.
+// A FileDescriptor is an immutable value seen through its getters (trusted).
+//@ trusted pure interface FileDescriptor
+//
+//@ func FileDescriptorProtoForFileDescriptor(fileDescriptor) (r)
+//@   property C11
+//@   modifies ghost.s_unknown
+//@   use s_cell-of-proto-String, s_unset-cell-is-zero
+//@   requires descriptor-given: fileDescriptor != nil
+//@   ensures descriptor-proto-returned-as-is: typeOf(fileDescriptor) == typeId(*descriptorpb.FileDescriptorProto) ==> r == fileDescriptor && ghost.s_unknown == old(ghost.s_unknown)
+//@   ensures built: r != nil
+//@   ensures dependency: typeOf(fileDescriptor) != typeId(*descriptorpb.FileDescriptorProto) ==> r.Dependency == fileDescriptor.GetDependency()
+//@   ensures public-dependency: typeOf(fileDescriptor) != typeId(*descriptorpb.FileDescriptorProto) ==> r.PublicDependency == fileDescriptor.GetPublicDependency()
+//@   ensures weak-dependency: typeOf(fileDescriptor) != typeId(*descriptorpb.FileDescriptorProto) ==> r.WeakDependency == fileDescriptor.GetWeakDependency()
+//@   ensures message-type: typeOf(fileDescriptor) != typeId(*descriptorpb.FileDescriptorProto) ==> r.MessageType == fileDescriptor.GetMessageType()
+//@   ensures enum-type: typeOf(fileDescriptor) != typeId(*descriptorpb.FileDescriptorProto) ==> r.EnumType == fileDescriptor.GetEnumType()
+//@   ensures service: typeOf(fileDescriptor) != typeId(*descriptorpb.FileDescriptorProto) ==> r.Service == fileDescriptor.GetService()
+//@   ensures extension: typeOf(fileDescriptor) != typeId(*descriptorpb.FileDescriptorProto) ==> r.Extension == fileDescriptor.GetExtension()
+//@   ensures options: typeOf(fileDescriptor) != typeId(*descriptorpb.FileDescriptorProto) ==> r.Options == fileDescriptor.GetOptions()
+//@   ensures source-code-info: typeOf(fileDescriptor) != typeId(*descriptorpb.FileDescriptorProto) ==> r.SourceCodeInfo == fileDescriptor.GetSourceCodeInfo()
+//@   ensures name: typeOf(fileDescriptor) != typeId(*descriptorpb.FileDescriptorProto) ==> (r.Name != nil) == (fileDescriptor.GetName() != "") && s_strOf(r.Name) == fileDescriptor.GetName()
+//@   ensures package: typeOf(fileDescriptor) != typeId(*descriptorpb.FileDescriptorProto) ==> (r.Package != nil) == (fileDescriptor.GetPackage() != "") && s_strOf(r.Package) == fileDescriptor.GetPackage()
+//@   ensures syntax: typeOf(fileDescriptor) != typeId(*descriptorpb.FileDescriptorProto) ==> (r.Syntax != nil) == (fileDescriptor.GetSyntax() != "") && s_strOf(r.Syntax) == fileDescriptor.GetSyntax()
+//@   ensures edition-presence: typeOf(fileDescriptor) != typeId(*descriptorpb.FileDescriptorProto) ==> (r.Edition != nil) == (fileDescriptor.GetEdition() != descriptorpb.Edition_EDITION_UNKNOWN)
+//@   ensures unknown-fields-kept: typeOf(fileDescriptor) != typeId(*descriptorpb.FileDescriptorProto) ==> ghost.s_unknown[r.ProtoReflect()] == old(ghost.s_unknown)[fileDescriptor.ProtoReflect()]
+//@   canary ensures r != fileDescriptor
